@@ -46,7 +46,7 @@ m = {
                  "kind_free_text": "repository-specific static analyser (go/packages + go/types + go/cfg path queries + whole-module call graph); reads /repo's working tree on every run, executes nothing from it"}],
     "checks": checks,
     "not_applicable": nas,
-    "notes": "All claims are level 'other': each check decides structural necessary conditions of its property on every path / call site / table entry of the current source (DESIGN.md §4 says per property what is and is not covered). Genuine defects found are either repaired by fix: commits in /repo or listed in known_findings.json. thorough = the same rules under three build configurations (default, with tests, GOARCH=386) plus the overlay-mutant self-test of the checker.",
+    "notes": "All claims are level 'other': each check decides structural necessary conditions of its property on every path / call site / table entry of the current source (DESIGN.md §4 says per property what is and is not covered). Genuine defects found are either repaired by fix: commits in /repo or listed in known_findings.json. thorough = the same rules under two build configurations (default, with test files) plus the overlay-mutant self-test of the checker.",
 }
 json.dump(m, open(os.path.join(V, 'MANIFEST.json'), 'w'), indent=1, ensure_ascii=False)
 print("checks:", len(checks), "not_applicable:", len(nas))
